@@ -50,3 +50,12 @@ put('C08', 'f09-kanji-chunks', seqcase('点茗' * 8, symbol_count=3))
 put('C08', 'f09-int-byte', seqcase(12345678901234567890, symbol_count=2, encoding='utf-8', mode='byte'))
 put('C08', 'f10-grow', seqcase('1' * 100, version=1, error='h'), note='fixed 449ae54')
 print('C08 regress written')
+
+# C11
+put('C11', 'k2-format-module', {'what': 'iter', 'sym': {'content': enc_content('1'), 'kw': {'version': 1, 'mask': 0}}, 'scale': 1, 'border': 0},
+    expect='known:C11/K2-module-8-size-9-typed-format')
+put('C11', 'f16-two-colour-shortcut', {'what': 'colourful', 'kind': 'png', 'sym': {'content': enc_content('1'), 'kw': {'version': 7, 'mask': 0}},
+    'opts': {'dark': '#c17690', 'light': None, 'version_dark': None, 'scale': 1}}, note='fixed 20993bd')
+put('C11', 'f24-all-transparent', {'what': 'colourful', 'kind': 'png', 'sym': {'content': enc_content('1'), 'kw': {'version': 1, 'mask': 0}},
+    'opts': {'dark': None, 'light': None, 'scale': 1}}, note='fixed 170b03b')
+print('C11 regress written')
